@@ -21,7 +21,7 @@ RULE = ("seeded generator over kernel classes {isotropic scalar sigma, isotropic
         "axis-aligned sxx != syy (general path), correlated |r| < 0.3 / < 0.75 / < 0.925 / >= 0.925 (both signs), "
         "uniform box} x weights {persistence n=1,2,3 and real n, linear_ramp (all three branches), user weight} x "
         "point placement {inside, on a mesh node / region border, outside the region} x skew in {True, False} x "
-        "NEGATIVE weights of three kinds (pair below the diagonal under persistence with odd n, linear_ramp with low < 0, signed user weight; spec = signed sum of weight x mass); collections through transform(..., n_jobs=1/2) - the joblib branch - with skew=False and True, every returned image checked (a fifth of the plain cases also pass n_jobs=1); multi-step HISTORIES on one imager (transform; window moved at equal pixel count by the range setters or by fit on shifted data; transform; pixel_size doubled and restored; transform) with general-path and fast-path kernels, every transform checked against the grid read from the public attributes birth_range / pers_range / pixel_size / resolution at that moment (the Coq run covers the last transform); an input-container class {float64 array, int64 array, nested list of ints, nested list of floats} x {linear_ramp with fractional low/high/start/end, persistence n in {1, 2, 1.5}, user callable} on integer-valued points; resolutions {2x2, 2x3, 3x2} (thorough: up to 3x4 / 4x3) with 1-2 points (thorough: up to 4), dyadic and "
+        "NEGATIVE weights of three kinds (pair below the diagonal under persistence with odd n, linear_ramp with low < 0, signed user weight; spec = signed sum of weight x mass); collections through transform(..., n_jobs=1/2) - the joblib branch - with skew=False and True, every returned image checked (a fifth of the plain cases also pass n_jobs=1); multi-step HISTORIES on one imager (transform; window moved at equal pixel count by the range setters or by fit on shifted data; transform; pixel_size doubled and restored; transform; in the fit_same variant the array given to fit is the SAME OBJECT that is transformed under the old window, right after the fit and again after the pixel-size round trip - equal-valued diagrams of one history are interned - and every array transform returned is overwritten with NaN once its values have been read) with general-path and fast-path kernels, every transform checked against the grid read from the public attributes birth_range / pers_range / pixel_size / resolution at that moment (the Coq run covers the last transform); an input-container class {float64 array, int64 array, nested list of ints, nested list of floats} x {linear_ramp with fractional low/high/start/end, persistence n in {1, 2, 1.5}, user callable} on integer-valued points; a UNIT class - magnitudes of the PARAMETERS: dyadic unit-scale cases (mixed placement) re-expressed in the units 2^-13 .. 2^-24 and 1e-4, 3e-5, 1e-5, 1e-6 (covariance entries 1e-8 .. 1e-15, box sides, ramp knots, window and pixel size of the order of the unit; one case in eight in the units 2^10, 1e3, 2^20) over kernels {axis-aligned, correlated in all four bands, uniform box, isotropic scalar / 2x2 as controls} x weights whose VALUES stay of order one so that the 1e-9 tolerance keeps its meaning {linear_ramp with scaled knots, user, persistence n=1 only for units >= 1e-5}, half of the 2x2 covariances handed over as nested lists (the axis-aligned / uniform / isotropic ones also go through the Coq run); a NEAR-ISOTROPIC class - 2x2 covariances whose variances differ by a relative 2e-7 .. 8e-6 and / or with a covariance of that relative order (they belong to the general path; treated as isotropic the pixels are off by ~1e-7); resolutions {2x2, 2x3, 3x2} (thorough: up to 3x4 / 4x3) with 1-2 points (thorough: up to 4), dyadic and "
         "random-double coordinates; the Coq model run covers isotropic / axis-aligned / uniform kernels, the "
         "correlated Gaussian is covered by the independent predicate only (verdict skip); a case is non-trivial "
         "when the image has two pixels that differ by more than 1e-9 and a pixel above 1e-9 in magnitude; "
@@ -233,11 +233,16 @@ def _history_case(rng, kcls, wcls, variant):
     else:   # fit on shifted data spanning exactly the same number of pixels
         b1, p1 = nb_lo + res[0] * ps, np_lo + res[1] * ps
         fd = [[nb_lo, (nb_lo + np_lo) if skew else np_lo], [b1, (b1 + p1) if skew else p1]]
+        if variant == "fit_same":
+            # the array handed to fit is THE SAME OBJECT that is transformed before the fit (old window), right after
+            # it and once more after the pixel-size round trip (equal-valued diagrams of one history are interned)
+            fd = fd + pts_in(nb_lo, np_lo, 1)
+            hist.append({"op": "transform", "dgm": fd})
         hist.append({"op": "fit", "dgm": fd})
-    hist.append({"op": "transform", "dgm": pts_in(nb_lo, np_lo, rng.randint(1, 2))})
+    hist.append({"op": "transform", "dgm": fd if variant == "fit_same" else pts_in(nb_lo, np_lo, rng.randint(1, 2))})
     hist.append({"op": "pixel_size", "val": 2 * ps})
     hist.append({"op": "pixel_size", "val": ps})
-    last = pts_in(nb_lo, np_lo, 1)
+    last = fd if variant == "fit_same" else pts_in(nb_lo, np_lo, 1)
     hist.append({"op": "transform", "dgm": last})
     return {"cls": "history/%s/%s/%s" % (variant, kcls, wcls), "birth_range": [blo, blo + res[0] * ps],
             "pers_range": [plo, plo + res[1] * ps], "pixel_size": ps, "kernel": k, "weight": w, "skew": skew,
@@ -316,7 +321,7 @@ def parallel_cases(rng, n):
 
 def history_cases(rng, n):
     return [_history_case(rng, HIST_KERNELS[i % len(HIST_KERNELS)], ["pers_nat", "ramp", "user", "pers_nat"][i % 4],
-                          "setter" if i % 2 == 0 else "fit") for i in range(n)]
+                          ["setter", "fit", "setter", "fit_same"][(i + i // 8) % 4]) for i in range(n)]
 
 
 # ---- magnitudes of the PARAMETERS: the same geometry measured in another unit ---------------------
@@ -544,21 +549,30 @@ def history_of(c):
 
 def impl_run(cases):
     import copy
+    import json
     import numpy as np
+    from .. import history
     outs = []
     for c in cases:
         def call():
             im = make_imager(c)
             cont = c.get("container", "f64")
             steps = []
+            memo = {}
+
+            def the_input(pts):
+                # equal-valued diagrams of one history are ONE object (fit and transform share their argument)
+                return history.intern(memo, [pts, cont], lambda: make_input(pts, cont))
             for st in history_of(c):
                 op = st["op"]
                 if op == "transform":
-                    d = make_input(st["dgm"], cont)
+                    d = the_input(st["dgm"])
                     d0 = copy.deepcopy(d)
                     nj = st.get("n_jobs", c.get("n_jobs"))
-                    img = np.asarray(im.transform(d, skew=c["skew"]) if nj is None else
-                                     im.transform(d, skew=c["skew"], n_jobs=nj))
+                    ret = (im.transform(d, skew=c["skew"]) if nj is None else
+                           im.transform(d, skew=c["skew"], n_jobs=nj))
+                    img = np.array(ret, dtype=float)
+                    history.scribble(ret)      # the caller may edit what it got back; later calls must not depend on it
                     bp, pp = public_grid(im)
                     steps.append({"dgm": st["dgm"], "bp": bp, "pp": pp,
                                   "res": [int(x) for x in im.resolution], "shape": [int(x) for x in img.shape],
@@ -575,12 +589,12 @@ def impl_run(cases):
                     if len(r) != len(ds):
                         raise ValueError("transform returned %d images for %d diagrams" % (len(r), len(ds)))
                     bp, pp = public_grid(im)
-                    for g, d, d0, img in zip(st["dgms"], ds, ds0, r):
-                        img = np.asarray(img)
+                    for g, d, d0, img in zip(st["dgms"], ds, ds0, [np.array(x, dtype=float) for x in r]):
                         steps.append({"dgm": g, "bp": bp, "pp": pp,
                                       "res": [int(x) for x in im.resolution], "shape": [int(x) for x in img.shape],
                                       "img": [[float(v) for v in row] for row in img] if img.ndim == 2 else None,
                                       "input_unchanged": bool(np.array_equal(np.asarray(d), np.asarray(d0)))})
+                    history.scribble(r)
                 elif op == "birth_range":
                     im.birth_range = tuple(st["val"])
                 elif op == "pers_range":
@@ -588,7 +602,7 @@ def impl_run(cases):
                 elif op == "pixel_size":
                     im.pixel_size = st["val"]
                 elif op == "fit":
-                    im.fit(make_input(st["dgm"], cont), skew=c["skew"])
+                    im.fit(the_input(st["dgm"]), skew=c["skew"])
                 else:
                     raise ValueError("unknown op %r" % op)
             o = dict(steps[-1])
